@@ -168,6 +168,11 @@ class Gen:
                 txt, _ = self.re_text(ast)
                 if len(txt) < 7000:
                     self.add("re", "re ast=%s re=%s%s" % (ast, hx(txt), lk))
+        # nested exact repeats triple the code at every level (no split, no jump: none of the size guards applies)
+        for d in (1, 2, 4, 7, 10):
+            ast = "Cl" * 4 + "R3,3;" * d + "l"
+            txt, _ = self.re_text(ast)
+            self.add("re", "re ast=%s re=%s%s" % (ast, hx(txt), lk))
         # code-size boundary (jump offsets are int16): n classes of 34 bytes under star / plus / alt / optional
         if not self.explicit:
             for wrap in ("S%s", "P%s", "A%sl", "Al%s", "R0,1;%s", "R1,2;%s", "R2,2;%s"):
@@ -398,9 +403,10 @@ class Gen:
             return "\n".join('rule %s { strings: %s = "%s" condition: #%s >= %d }' % (n, sid, tok, sid[1:], k) for n, sid, tok, k in rs)
         brules = [r for r in rules if r[0].startswith("b")]
         segs = [s for s in segs if s[1] > 0] or [("QRST", 1)]
+        mmd = "" if lk == "" else " mmd=%d" % self.r.choice([0, 1, 3, 4, 5, 512, 70000])
         line = "scan m=matches rules=%s segs=%s cb=%s reps=%d show=b text=%s buf=%s%s" % (
             ",".join("%s:%s:%s:%d" % r for r in rules), "+".join("%s*%d" % s for s in segs), cb, reps, hx(text(rules)),
-            "+".join("%s*%d" % (s[0].encode().hex(), s[1]) for s in segs), lk)
+            "+".join("%s*%d" % (s[0].encode().hex(), s[1]) for s in segs), lk) + mmd
         if brules:
             line += " text2=%s" % hx(text(brules))
         self.add("mt", line)
